@@ -92,8 +92,18 @@ class RspHandler:
         crc2 = int(pkt[-2:], 16)
         if crc != crc2:
             raise ValueError(f"Checksum {crc} != {crc2}")
-        pkt = pkt[1:-3]
-        return pkt
+        # Undo the escaping: '}' is followed by the original character ^ 0x20
+        data = []
+        escape = False
+        for c in pkt[1:-3]:
+            if escape:
+                data.append(chr(ord(c) ^ 0x20))
+                escape = False
+            elif c == "}":
+                escape = True
+            else:
+                data.append(c)
+        return "".join(data)
 
 
 def decoder():
